@@ -1,10 +1,11 @@
 // ---- the two-watched-literal invariant (C09: "runs to fixpoint"): specification vocabulary and step lemmas ----
 pub open spec fn lneg(l: Literal) -> Literal { Literal { lbl: l.lbl, pol: !l.pol } }
 pub open spec fn lit_false(l: Literal, m: PartialModel) -> bool { m.val(l.lbl) == Some(!l.pol) }
-/// within one clause no literal occurs twice (what Cnf::new's sort + dedup establishes)
-pub open spec fn distinct_lits(cs: Seq<Vec<Literal>>) -> bool {
-    forall|i: int, j: int, k: int| 0 <= i < cs.len() && 0 <= j < k < cs[i]@.len() ==> (#[trigger] cs[i]@[j]) != (#[trigger] cs[i]@[k])
-}
+/// every clause is in the normal form Cnf::new is proved to establish (unit cnf: `norm_lits`); opaque so that the
+/// quantifiers of the definition stay out of the propagation loop's verification conditions
+#[verifier::opaque]
+pub open spec fn norm_ok(cs: Seq<Vec<Literal>>) -> bool { norm_lits(cs) }
+pub proof fn lemma_norm_ok(cs: Seq<Vec<Literal>>) ensures norm_ok(cs) == norm_lits(cs) { reveal(norm_ok); }
 /// the watch list of a literal
 pub open spec fn wl(wlp: Seq<Vec<usize>>, wln: Seq<Vec<usize>>, l: Literal) -> Seq<usize> { if l.pol { wlp[l.lbl.0 as int]@ } else { wln[l.lbl.0 as int]@ } }
 /// clause i may sit in the watch list of l: it exists, has at least two literals, and contains l
@@ -44,7 +45,7 @@ impl UnitPropagate {
         forall|i: int| 0 <= i < self.cnf.clauses@.len() && (#[trigger] self.cnf.clauses@[i])@.len() >= 2 ==> self.two_watched(i)
     }
     /// the structural part of the two-watched-literal scheme (independent of any partial model)
-    pub open spec fn winv(&self) -> bool { self.inv() && distinct_lits(self.cnf.clauses@) && self.entries_ok() && self.all_two_watched() }
+    pub open spec fn winv(&self) -> bool { self.inv() && norm_ok(self.cnf.clauses@) && self.entries_ok() && self.all_two_watched() }
     /// THE watch invariant relative to a partial model: a clause watched by a literal that the model makes false is satisfied by the model
     #[verifier::opaque]
     pub open spec fn watch_ok(&self, m: PartialModel) -> bool {
@@ -356,9 +357,8 @@ pub proof fn lemma_move_winv(u1: UnitPropagate, u2: UnitPropagate, m: PartialMod
                 } else {
                     // newl == o watches i already, so the code saw un[0] watching i and took un[1] == o; then un[0] != o watches i
                     assert(u1.list(un[0]).contains(i));
-                    lemma_unassigned_positions(c, m, c.len() as int, 0, 1);
-                    let (p, q) = choose|p: int, q: int| 0 <= p < q < c.len() && #[trigger] c[p] == un[0] && #[trigger] c[q] == un[1];
-                    assert(cs[i as int]@[p] != cs[i as int]@[q]);
+                    assert(norm1(c)) by { reveal(norm_ok); assert(norm1(cs[i as int]@)); }
+                    lemma_first_two_differ(c, m);
                     assert(un[0] != o);
                     let pz = choose|pz: int| 0 <= pz < c.len() && c[pz] == un[0];
                     assert(cs[i as int][pz] == un[0]);
@@ -400,7 +400,7 @@ pub proof fn lemma_built_done(u: UnitPropagate)
 /// one step of the initial scan: clause idx (at least two literals) is entered into the lists of its literals 1 and 0
 pub proof fn lemma_built_step(u1: UnitPropagate, u2: UnitPropagate, idx: usize)
     requires
-        u1.cnf.wf(), distinct_lits(u1.cnf.clauses@), u1.entries_ok(), built_upto(u1, idx as int),
+        u1.cnf.wf(), norm_ok(u1.cnf.clauses@), u1.entries_ok(), built_upto(u1, idx as int),
         idx < u1.cnf.clauses@.len(), u1.cnf.clauses@[idx as int]@.len() >= 2,
         u2.cnf == u1.cnf,
         ({
@@ -416,7 +416,7 @@ pub proof fn lemma_built_step(u1: UnitPropagate, u2: UnitPropagate, idx: usize)
     let a = c[1]; let b = c[0];
     assert(cs[idx as int][1] == a && cs[idx as int][0] == b);
     assert(u1.in_rng(a) && u1.in_rng(b));
-    assert(a != b) by { assert(cs[idx as int]@[0] != cs[idx as int]@[1]); }
+    assert(a != b) by { reveal(norm_ok); assert(norm1(cs[idx as int]@)); assert(cs[idx as int]@[0int] != cs[idx as int]@[0int + 1]); }
     assert forall|l: Literal, j: int| u2.in_rng(l) && 0 <= j < u2.list(l).len() implies entry_ok(cs, l, #[trigger] u2.list(l)[j]) by {
         if l == a || l == b {
             if j < u1.list(l).len() { assert(u2.list(l)[j] == u1.list(l)[j]); } else { assert(u2.list(l)[j] == idx); assert(c.contains(l)); }
@@ -521,5 +521,69 @@ pub proof fn lemma_fixpoint(u: UnitPropagate, m: PartialModel)
                 if ja < jb { assert(m.val(c[ja].lbl) is None && m.val(c[jb].lbl) is None); } else { assert(m.val(c[jb].lbl) is None && m.val(c[ja].lbl) is None); }
             }
         }
+    }
+}
+
+/// the first k literals are all assigned when none of them is in the list of unassigned ones
+pub proof fn lemma_none_unassigned(c: Seq<Literal>, m: PartialModel, k: int)
+    requires 0 <= k <= c.len(), unassigned_upto(c, m, k).len() == 0,
+    ensures forall|r: int| 0 <= r < k ==> m.val((#[trigger] c[r]).lbl) is Some,
+    decreases k,
+{
+    if k > 0 { lemma_none_unassigned(c, m, k - 1); }
+}
+/// exactly one unassigned literal among the first k: where it sits
+pub proof fn lemma_one_unassigned(c: Seq<Literal>, m: PartialModel, k: int)
+    requires 0 <= k <= c.len(), unassigned_upto(c, m, k).len() == 1,
+    ensures exists|p: int| 0 <= p < k && #[trigger] c[p] == unassigned_upto(c, m, k)[0] && m.val(c[p].lbl) is None
+        && forall|r: int| 0 <= r < k && r != p ==> m.val((#[trigger] c[r]).lbl) is Some,
+    decreases k,
+{
+    let u0 = unassigned_upto(c, m, k - 1);
+    if m.val(c[k - 1].lbl) is None {
+        lemma_none_unassigned(c, m, k - 1);
+        assert(c[k - 1] == unassigned_upto(c, m, k)[0]);
+    } else {
+        lemma_one_unassigned(c, m, k - 1);
+        let p = choose|p: int| 0 <= p < k - 1 && #[trigger] c[p] == u0[0] && m.val(c[p].lbl) is None && forall|r: int| 0 <= r < k - 1 && r != p ==> m.val((#[trigger] c[r]).lbl) is Some;
+        assert(c[p] == unassigned_upto(c, m, k)[0]);
+    }
+}
+/// the first two unassigned literals: their positions p < q, with every other position before q assigned
+pub proof fn lemma_first_two(c: Seq<Literal>, m: PartialModel, k: int)
+    requires 0 <= k <= c.len(), unassigned_upto(c, m, k).len() >= 2,
+    ensures exists|p: int, q: int| 0 <= p < q < k && #[trigger] c[p] == unassigned_upto(c, m, k)[0] && #[trigger] c[q] == unassigned_upto(c, m, k)[1]
+        && m.val(c[p].lbl) is None && forall|r: int| 0 <= r < q && r != p ==> m.val((#[trigger] c[r]).lbl) is Some,
+    decreases k,
+{
+    let u0 = unassigned_upto(c, m, k - 1); let u = unassigned_upto(c, m, k);
+    if m.val(c[k - 1].lbl) is None && u0.len() == 1 {
+        lemma_one_unassigned(c, m, k - 1);
+        let p = choose|p: int| 0 <= p < k - 1 && #[trigger] c[p] == u0[0] && m.val(c[p].lbl) is None && forall|r: int| 0 <= r < k - 1 && r != p ==> m.val((#[trigger] c[r]).lbl) is Some;
+        assert(c[p] == u[0] && c[k - 1] == u[1]);
+    } else {
+        lemma_first_two(c, m, k - 1);
+        let (p, q) = choose|p: int, q: int| 0 <= p < q < k - 1 && #[trigger] c[p] == u0[0] && #[trigger] c[q] == u0[1]
+            && m.val(c[p].lbl) is None && forall|r: int| 0 <= r < q && r != p ==> m.val((#[trigger] c[r]).lbl) is Some;
+        assert(c[p] == u[0] && c[q] == u[1]);
+    }
+}
+/// in a clause in normal form the first two unassigned literals are different literals: two equal literals have their
+/// negation (same variable, so unassigned as well) between them
+pub proof fn lemma_first_two_differ(c: Seq<Literal>, m: PartialModel)
+    requires norm1(c), unassigned(c, m).len() >= 2,
+    ensures unassigned(c, m)[0] != unassigned(c, m)[1],
+{
+    lemma_first_two(c, m, c.len() as int);
+    let un = unassigned(c, m);
+    let (p, q) = choose|p: int, q: int| 0 <= p < q < c.len() && #[trigger] c[p] == un[0] && #[trigger] c[q] == un[1]
+        && m.val(c[p].lbl) is None && forall|r: int| 0 <= r < q && r != p ==> m.val((#[trigger] c[r]).lbl) is Some;
+    if c[p] == c[q] {
+        assert(c[p] != c[p + 1]);
+        // sorted: the label of position p + 1 lies between two equal labels
+        assert(c[p].lbl.0 <= c[p + 1].lbl.0 && c[p + 1].lbl.0 <= c[q].lbl.0);
+        assert(c[p + 1].lbl == c[p].lbl);
+        assert(p + 1 != q);
+        assert(m.val(c[p + 1].lbl) is Some);
     }
 }
